@@ -167,6 +167,25 @@ impl<'a> Tr<'a> {
                         return self.err(e.span(), "unrecognised Dereference { ptr } use");
                     }
                 }
+                // `Transmuter::<[MaybeUninit<T>; N], [T; N]> { from: ManuallyDrop::new(md) }.to`: the union read that
+                // reinterprets an array of slots as an array of values
+                if let (Expr::Struct(st), syn::Member::Named(mn)) = (peel(&f.base), &f.member) {
+                    let is_tm = st.path.segments.last().map(|x| x.ident == "Transmuter").unwrap_or(false);
+                    if is_tm && mn == "to" && st.fields.len() == 1 {
+                        let x = self.expr(&st.fields[0].expr, None)?;
+                        if let Ty::Slice(e) = self.sub.shallow(&x.ty) {
+                            if let Ty::Option(inner) = self.sub.shallow(&e) {
+                                if self.const_generics.len() == 1 {
+                                    let t = self.fresh("t");
+                                    let mut pre = x.pre;
+                                    pre.push(format!("let {} ← Rs.assumeInitArray {} {}", t, x.term, lean_ident(&self.const_generics[0])));
+                                    return Ok(Out { pre, term: t, ty: Ty::Slice(inner), diverges: false });
+                                }
+                            }
+                        }
+                        return self.err(e.span(), "unrecognised Transmuter use");
+                    }
+                }
                 let a = self.expr(&f.base, None)?;
                 let bt = self.sub.shallow(&a.ty);
                 match (&f.member, &bt) {
@@ -953,10 +972,12 @@ impl<'a> Tr<'a> {
         self.reg.enums.set_hint(&callee.path);
         let mut ptys: Vec<Ty> = Vec::new();
         let mut has_self = false;
+        let mut callee_mut_self = false;
         for inp in &callee.sig.inputs {
             match inp {
-                syn::FnArg::Receiver(_) => {
+                syn::FnArg::Receiver(r) => {
                     has_self = true;
+                    callee_mut_self = r.reference.is_some() && r.mutability.is_some();
                 }
                 syn::FnArg::Typed(pt) => ptys.push(self.conv_ty(&pt.ty)),
             }
@@ -966,7 +987,17 @@ impl<'a> Tr<'a> {
             syn::ReturnType::Type(_, t) => self.conv_ty(t),
         };
         let self_ty = callee.self_ty.clone();
-        let self_spec: Option<Ty> = callee.self_syn.clone().map(|t| self.conv_ty(&t));
+        let mut self_spec: Option<Ty> = callee.self_syn.clone().map(|t| self.conv_ty(&t));
+        if self_spec.is_none() && has_self {
+            // the receiver's own type with the impl's parameters: links the type arguments of the value to the
+            // callee's generics (`ArrayBuilder<T, N>::push(&mut self, val: T)`)
+            if let Some(n) = &self_ty {
+                if !self.adt_type_params(n).is_empty() {
+                    let args = self.default_adt_args(n);
+                    self_spec = Some(Ty::Adt(n.clone(), args));
+                }
+            }
+        }
         self.cur = saved_cur;
         self.reg.structs.set_hint(&saved_cur.path);
         self.reg.enums.set_hint(&saved_cur.path);
@@ -978,6 +1009,7 @@ impl<'a> Tr<'a> {
         }
         let ptys: Vec<Ty> = ptys.iter().map(|t| subst_params(t, &map)).collect();
         let rty = subst_params(&rty, &map);
+        let self_spec = self_spec.map(|t| subst_params(&t, &map));
 
         let mut pre = Vec::new();
         let mut terms: Vec<String> = Vec::new();
@@ -994,7 +1026,11 @@ impl<'a> Tr<'a> {
         }
         terms.extend(const_args);
         let mut arg_iter = args.into_iter();
+        let mut mut_place: Option<Expr> = None;
         if has_self {
+            if callee_mut_self && recv.is_some() {
+                return self.err(sp, "call of a `&mut self` method with method syntax");
+            }
             let st = self_spec.clone().unwrap_or_else(|| Ty::Adt(self_ty.clone().unwrap_or_default(), vec![]));
             match recv {
                 Some(r) => {
@@ -1005,6 +1041,12 @@ impl<'a> Tr<'a> {
                 None => {
                     // UFCS: Type::method(self_arg, ...)
                     let a = arg_iter.next().ok_or("missing self argument")?;
+                    if callee_mut_self {
+                        match peel_paren(a) {
+                            Expr::Reference(r) if r.mutability.is_some() => mut_place = Some((*r.expr).clone()),
+                            _ => return self.err(sp, "a `&mut self` method called by path needs `&mut <place>` as its first argument"),
+                        }
+                    }
                     let o = self.expr(a, Some(&st))?;
                     pre.extend(o.pre);
                     terms.push(o.term);
@@ -1031,6 +1073,18 @@ impl<'a> Tr<'a> {
         } else {
             ""
         };
+        if let Some(place) = mut_place {
+            // a `&mut self` method is translated to return `(result, self)`: write the new `self` back to the place
+            let t2 = self.fresh("t");
+            pre.push(format!("let ({}, {}) ← Ctl.call ({}{} {})", t, t2, rf.lean, fuel, terms.join(" ")));
+            let mut lines = Vec::new();
+            self.assign_place(&place, t2, false, &mut lines)?;
+            pre.extend(lines);
+            if matches!(rty, Ty::Never) {
+                return Ok(Out { pre, term: "Ctl.panic".into(), ty: Ty::Never, diverges: true });
+            }
+            return Ok(Out { pre, term: t, ty: rty, diverges: false });
+        }
         pre.push(format!("let {} ← Ctl.call ({}{} {})", t, rf.lean, fuel, terms.join(" ")));
         if matches!(rty, Ty::Never) {
             return Ok(Out { pre, term: "Ctl.panic".into(), ty: Ty::Never, diverges: true });
